@@ -265,3 +265,295 @@ Lemma load_char0 fs ty stores : forallb has_sep stores = true ->
   (spec_res fs ty (uniq (names_of_type ty stores)),
    map (fun x => (ty, x)) (upto_err fs ty (uniq (names_of_type ty stores)))).
 Proof. apply (load_char fs ty (List.length stores)). lia. Qed.
+
+(* ---------- membership facts about the declarative lists ---------- *)
+Lemma uniq_In x l : In x (uniq l) <-> In x l.
+Proof.
+  induction l as [|a l IH]; cbn; [tauto|]. rewrite filter_In, IH. split.
+  - intros [H|[H _]]; auto.
+  - intros [H|H]; [now left|]. destruct (String.eqb a x) eqn:E.
+    + apply String.eqb_eq in E. now left.
+    + right. split; [exact H | now rewrite E].
+Qed.
+
+Lemma names_In ty n stores :
+  In n (names_of_type ty stores) <-> exists s, In s stores /\ cut_byte colon s = Some (ty, n).
+Proof.
+  unfold names_of_type. rewrite in_flat_map. split.
+  - intros (s & Hs & Hn). exists s. split; [exact Hs|].
+    destruct (cut_byte colon s) as [[t m]|]; [|contradiction].
+    destruct (String.eqb t ty) eqn:Et; [|contradiction]. apply String.eqb_eq in Et.
+    destruct Hn as [->|[]]. now subst.
+  - intros (s & Hs & Hc). exists s. split; [exact Hs|]. rewrite Hc, String.eqb_refl. now left.
+Qed.
+
+Lemma store_type_no_colon sch ty : store_type_of sch = Some ty -> contains_byte colon ty = false.
+Proof. destruct sch; cbn; intros H; inversion H; reflexivity. Qed.
+
+Lemma listed_cut ty name : contains_byte colon ty = false ->
+  cut_byte colon (store_value ty name) = Some (ty, name).
+Proof. apply cut_app. Qed.
+
+Lemma names_In_value ty n stores : contains_byte colon ty = false ->
+  (In n (names_of_type ty stores) <-> In (store_value ty n) stores).
+Proof.
+  intros Hty. rewrite names_In. split.
+  - intros (s & Hs & Hc). now rewrite <- (cut_store_value _ _ _ Hc).
+  - intros H. exists (store_value ty n). split; [exact H | now apply listed_cut].
+Qed.
+
+Lemma has_sep_forallb stores : (forall s, In s stores -> contains_byte colon s = true) ->
+  forallb has_sep stores = true.
+Proof. intros H. apply forallb_forall. exact H. Qed.
+
+(* ---------- a store that cannot be loaded is never skipped ---------- *)
+Lemma load_error_never_ok fs ty s name : cut_byte colon s = Some (ty, name) ->
+  fs_get fs ty name = LoadError ->
+  forall stores P, In s stores -> ~ In s P -> forall cs, fst (load fs ty stores P) <> LOk cs.
+Proof.
+  intros Hcut Hfs. induction stores as [|x rest IH]; intros P Hin HP cs; [contradiction|].
+  cbn [load]. destruct (mem_str x P) eqn:Em.
+  { destruct Hin as [->|Hin]; [apply mem_str_In in Em; contradiction | now apply IH]. }
+  destruct (cut_byte colon x) as [[sty n]|] eqn:Ecx; [|cbn; discriminate].
+  destruct (String.eqb ty sty) eqn:Ety; cbn [negb].
+  2:{ destruct Hin as [->|Hin]; [|now apply IH]. rewrite Hcut in Ecx. inversion Ecx; subst.
+      now rewrite String.eqb_refl in Ety. }
+  apply String.eqb_eq in Ety. subst sty.
+  destruct (fs_get fs ty n) as [l|] eqn:Efn; [|cbn; discriminate].
+  cbn [fst]. assert (Hxs : x <> s).
+  { intros ->. rewrite Hcut in Ecx. inversion Ecx; subst. congruence. }
+  destruct Hin as [->|Hin]; [congruence|].
+  assert (HP' : ~ In s (x :: P)) by (intros [H|H]; [congruence | contradiction]).
+  specialize (IH (x :: P) Hin HP').
+  destruct (fst (load fs ty rest (x :: P))) as [cs'| |]; try discriminate. exfalso. now apply (IH cs').
+Qed.
+
+(* ---------- statement selection ---------- *)
+Fixpoint find_last {A} (p : A -> bool) (l : list A) : option A :=
+  match l with
+  | [] => None
+  | s :: r => match find_last p r with
+              | Some x => Some x
+              | None => if p s then Some s else None
+              end
+  end.
+
+Definition is_wild (s : stmt) : bool := has_scope wildcard s.
+Definition is_exact (repo : string) (s : stmt) : bool := negb (has_scope wildcard s) && has_scope repo s.
+Definition opt_or {A} (a b : option A) : option A := match a with Some _ => a | None => b end.
+
+Lemma select_fold repo : forall l w a,
+  fold_left (sel_step repo) l (w, a)
+  = (opt_or (find_last is_wild l) w, opt_or (find_last (is_exact repo) l) a).
+Proof.
+  induction l as [|s r IH]; intros w a; [reflexivity|].
+  cbn [fold_left find_last]. unfold sel_step at 2. cbn [fst snd].
+  unfold is_exact at 2, is_wild at 2.
+  destruct (has_scope wildcard s) eqn:Ew; cbn [negb andb].
+  - rewrite IH. destruct (find_last is_wild r), (find_last (is_exact repo) r); reflexivity.
+  - destruct (has_scope repo s) eqn:Er; rewrite IH;
+      destruct (find_last is_wild r), (find_last (is_exact repo) r); reflexivity.
+Qed.
+
+Lemma select_eq policy repo :
+  select policy repo = opt_or (find_last (is_exact repo) policy) (find_last is_wild policy).
+Proof.
+  unfold select. rewrite select_fold. cbn [fst snd].
+  destruct (find_last (is_exact repo) policy), (find_last is_wild policy); reflexivity.
+Qed.
+
+Lemma find_last_some {A} (p : A -> bool) l s : find_last p l = Some s -> In s l /\ p s = true.
+Proof.
+  induction l as [|x r IH]; cbn; [discriminate|].
+  destruct (find_last p r) as [y|].
+  - intros H. inversion H; subst. destruct (IH eq_refl). split; [now right | assumption].
+  - destruct (p x) eqn:E; [|discriminate]. intros H. inversion H; subst. split; [now left | exact E].
+Qed.
+
+Lemma find_last_none {A} (p : A -> bool) l : (forall x, In x l -> p x = false) -> find_last p l = None.
+Proof.
+  induction l as [|x r IH]; cbn; [reflexivity|]. intros H.
+  rewrite IH by (intros; apply H; now right). now rewrite (H x (or_introl eq_refl)).
+Qed.
+
+Lemma selected_in_scope policy repo st : select policy repo = Some st ->
+  In st policy /\ (has_scope repo st = true \/ has_scope wildcard st = true).
+Proof.
+  rewrite select_eq. destruct (find_last (is_exact repo) policy) as [s|] eqn:E; cbn.
+  - intros H. inversion H; subst. apply find_last_some in E. destruct E as [Hin Hp].
+    unfold is_exact in Hp. apply andb_true_iff in Hp. split; [exact Hin | left; apply Hp].
+  - intros H. apply find_last_some in H. destruct H as [Hin Hp]. split; [exact Hin | right; exact Hp].
+Qed.
+
+(* an exact statement wins over the wildcard statement *)
+Lemma selected_exact_first policy repo st : select policy repo = Some st ->
+  has_scope wildcard st = true ->
+  forall s, In s policy -> has_scope wildcard s = false -> has_scope repo s = false.
+Proof.
+  rewrite select_eq. destruct (find_last (is_exact repo) policy) as [x|] eqn:E; cbn.
+  - intros H. inversion H; subst. apply find_last_some in E. destruct E as [_ Hp].
+    unfold is_exact in Hp. apply andb_true_iff in Hp. destruct Hp as [Hp _].
+    intros Hw. rewrite Hw in Hp. discriminate.
+  - intros _ _ s Hin Hw. destruct (has_scope repo s) eqn:Er; [|reflexivity]. exfalso.
+    assert (Hs : is_exact repo s = true) by (unfold is_exact; now rewrite Hw, Er).
+    clear -E Hin Hs. induction policy as [|y r IH]; [contradiction|]. cbn in E.
+    destruct (find_last (is_exact repo) r) eqn:Er'; [discriminate|].
+    destruct Hin as [->|Hin]; [now rewrite Hs in E | now apply IH].
+Qed.
+
+Lemma nodup_str_app a b : nodup_str (a ++ b) = true ->
+  nodup_str b = true /\ forall x, In x a -> ~ In x b.
+Proof.
+  induction a as [|y a IH]; cbn; [intros H; split; [exact H | contradiction]|].
+  intros H. apply andb_true_iff in H. destruct H as [Hy Ha]. destruct (IH Ha) as [Hb Hd].
+  split; [exact Hb|]. intros x [->|Hx]; [|now apply Hd].
+  intros Hin. apply negb_true_iff in Hy. assert (mem_str x (a ++ b) = true) by (apply mem_str_In, in_or_app; now right).
+  congruence.
+Qed.
+
+Lemma find_last_find (p : stmt -> bool) x : forall l,
+  nodup_str (flat_map st_scopes l) = true ->
+  (forall s, p s = true -> has_scope x s = true) ->
+  find_last p l = find p l.
+Proof.
+  intros l Hnd Hp. induction l as [|s r IH]; [reflexivity|].
+  cbn [flat_map] in Hnd. destruct (nodup_str_app _ _ Hnd) as [Hr Hd].
+  cbn [find_last find]. destruct (p s) eqn:Eps.
+  - rewrite find_last_none; [reflexivity|]. intros s' Hs'.
+    destruct (p s') eqn:E; [|reflexivity]. exfalso.
+    apply Hp in Eps. apply Hp in E. unfold has_scope in *. apply mem_str_In in Eps. apply mem_str_In in E.
+    apply (Hd x Eps). apply in_flat_map. exists s'. split; assumption.
+  - rewrite (IH Hr). now destruct (find p r).
+Qed.
+
+Lemma select_applicable policy repo : nodup_str (flat_map st_scopes policy) = true ->
+  select policy repo = applicable policy repo.
+Proof.
+  intros Hnd. rewrite select_eq. unfold applicable.
+  rewrite (find_last_find (is_exact repo) repo policy Hnd).
+  2:{ intros s H. unfold is_exact in H. apply andb_true_iff in H. apply H. }
+  rewrite (find_last_find is_wild wildcard policy Hnd) by (intros s H; exact H).
+  unfold is_exact, is_wild. now destruct (find _ policy).
+Qed.
+
+(* ---------- the authenticity step ---------- *)
+Definition sel (i : input) : option stmt := select (i_policy i) (i_repo i).
+Definition auth_of (i : input) (st : stmt) : aclass * list call :=
+  auth_stage (i_scheme i) (i_fs i) (i_chain i) (st_stores st).
+
+Lemma model_auth i st : sel i = Some st -> st_action st <> SkipLevel ->
+  o_auth (model i) = Some (fst (auth_of i st)).
+Proof.
+  unfold sel, auth_of, model. intros -> Ha.
+  destruct (st_action st); [| |congruence];
+    match goal with |- context [if ?b then _ else _] => destruct b end; reflexivity.
+Qed.
+
+Lemma model_auth_inv i c : o_auth (model i) = Some c ->
+  exists st, sel i = Some st /\ st_action st <> SkipLevel /\ c = fst (auth_of i st).
+Proof.
+  intros H. destruct (sel i) as [st|] eqn:Es.
+  - exists st. destruct (st_action st) eqn:Ea.
+    1,2: assert (Hn : st_action st <> SkipLevel) by congruence;
+         rewrite (model_auth i st Es Hn) in H; inversion H; auto.
+    unfold sel in Es. unfold model in H. rewrite Es, Ea in H. discriminate.
+  - unfold sel in Es. unfold model in H. rewrite Es in H. discriminate.
+Qed.
+
+Lemma model_stop i st : sel i = Some st -> st_action st <> SkipLevel ->
+  o_stop (model i) = (match st_action st with Enforce => true | _ => false end)
+                     && negb (is_pass (fst (auth_of i st))).
+Proof.
+  unfold sel, auth_of, model. intros -> Ha.
+  destruct (st_action st); [| |congruence]; cbn [andb];
+    try match goal with |- context [if ?b then _ else _] => destruct b end; reflexivity.
+Qed.
+
+Lemma model_calls i st : sel i = Some st -> st_action st <> SkipLevel ->
+  o_calls (model i) =
+  (snd (auth_of i st) ++
+   (if o_stop (model i) then []
+    else tsa_calls (i_scheme i) (i_fs i) (i_token i && st_ts st) (st_stores st)))%list.
+Proof.
+  intros Hs Ha. rewrite (model_stop i st Hs Ha). revert Hs. unfold sel, auth_of, model. intros ->.
+  destruct (st_action st); [| |congruence]; cbn [andb];
+    try match goal with |- context [if ?b then _ else _] => destruct b end; cbn [o_calls];
+    rewrite ?app_nil_r; reflexivity.
+Qed.
+
+Lemma auth_stage_pass sch fs chain stores : fst (auth_stage sch fs chain stores) = APass ->
+  exists ty name l c, store_type_of sch = Some ty /\ In (store_value ty name) stores /\
+                      fs_get fs ty name = Certs l /\ In c l /\ In c chain.
+Proof.
+  unfold auth_stage. destruct (store_type_of sch) as [ty|]; [|cbn; discriminate]. cbn [fst].
+  destruct (fst (load fs ty stores [])) as [certs| |] eqn:El; try discriminate.
+  unfold verify_authenticity. destruct certs as [|c0 certs]; [discriminate|].
+  destruct (existsb _ chain) eqn:Ex; [|discriminate]. intros _.
+  apply existsb_exists in Ex. destruct Ex as (c & Hc & Hm). apply mem_cert_In in Hm.
+  destruct (load_sound fs ty stores [] _ c El Hm) as (s & name & l & Hin & Hcut & Hfs & Hcl).
+  exists ty, name, l, c. rewrite <- (cut_store_value _ _ _ Hcut). auto.
+Qed.
+
+Lemma exists_swap (f : string -> list N) chain wanted :
+  existsb (fun c => mem_cert c (flat_map f wanted)) chain
+  = existsb (fun n => existsb (fun c => mem_cert c (f n)) chain) wanted.
+Proof.
+  apply eq_true_iff_eq. rewrite !existsb_exists. split.
+  - intros (c & Hc & Hm). apply mem_cert_In, in_flat_map in Hm. destruct Hm as (n & Hn & Hcn).
+    exists n. split; [exact Hn|]. apply existsb_exists. exists c. split; [exact Hc | now apply mem_cert_In].
+  - intros (n & Hn & Hex). apply existsb_exists in Hex. destruct Hex as (c & Hc & Hm).
+    exists c. split; [exact Hc|]. apply mem_cert_In, in_flat_map. exists n. split; [exact Hn | now apply mem_cert_In].
+Qed.
+
+(* on a list whose values all have the separator the step is the declarative one *)
+Lemma auth_stage_char i st ty : store_type_of (i_scheme i) = Some ty ->
+  forallb has_sep (st_stores st) = true ->
+  auth_of i st = (expected_auth i ty (st_stores st), expected_calls (i_fs i) ty (st_stores st)).
+Proof.
+  intros Hty Hsep. unfold auth_of, auth_stage. rewrite Hty, (load_char0 _ _ _ Hsep). cbn [fst snd].
+  f_equal. unfold expected_auth, spec_res.
+  destruct (find _ (uniq (names_of_type ty (st_stores st)))); [reflexivity|].
+  unfold verify_authenticity. rewrite exists_swap. reflexivity.
+Qed.
+
+Lemma tsa_in_policy_char stores : forallb has_sep stores = true ->
+  exists b, tsa_in_policy stores = Some b /\ (b = false -> names_of_type ty_tsa stores = []).
+Proof.
+  induction stores as [|s rest IH]; [exists false; split; reflexivity|].
+  cbn [forallb]. intros H. apply andb_true_iff in H. destruct H as [Hs Hr].
+  cbn [tsa_in_policy]. rewrite names_cons. unfold names_one.
+  destruct (cut_byte colon s) as [[t n]|] eqn:Ecut.
+  2:{ apply cut_none in Ecut. unfold has_sep in Hs. congruence. }
+  destruct (String.eqb t ty_tsa).
+  - exists true. split; [reflexivity | discriminate].
+  - destruct (IH Hr) as (b & Hb & Hn). exists b. split; [exact Hb | exact Hn].
+Qed.
+
+Definition is_x509 (s : scheme) : bool := match s with SX509 => true | _ => false end.
+
+Lemma tsa_calls_char sch fs ts stores : forallb has_sep stores = true ->
+  tsa_calls sch fs ts stores = if is_x509 sch && ts then expected_calls fs ty_tsa stores else [].
+Proof.
+  intros Hsep. unfold tsa_calls. destruct sch; try reflexivity. cbn [is_x509 andb].
+  destruct (tsa_in_policy_char stores Hsep) as (b & -> & Hb). destruct b.
+  - destruct ts; [|reflexivity]. now rewrite (load_char0 _ _ _ Hsep).
+  - unfold expected_calls. rewrite (Hb eq_refl). now destruct ts.
+Qed.
+
+Lemma aclass_eqb_refl c : aclass_eqb c c = true.
+Proof. destruct c; cbn; rewrite ?String.eqb_refl; reflexivity. Qed.
+
+Lemma key_eqb_spec a b : key_eqb a b = true <-> a = b.
+Proof.
+  destruct a as [a1 a2], b as [b1 b2]. unfold key_eqb. cbn. rewrite andb_true_iff, !String.eqb_eq.
+  split; [intros [-> ->]; reflexivity | intros H; inversion H; auto].
+Qed.
+
+Lemma calls_eqb_refl (l : list call) : list_eqb key_eqb l l = true.
+Proof. apply (list_eqb_spec key_eqb key_eqb_spec). reflexivity. Qed.
+
+Lemma valid_store_sep s : valid_store s = true -> has_sep s = true.
+Proof.
+  unfold valid_store, has_sep. destruct (cut_byte colon s) eqn:E; [|discriminate]. intros _.
+  destruct (contains_byte colon s) eqn:C; [reflexivity|]. apply cut_none in C. congruence.
+Qed.
